@@ -37,8 +37,9 @@ abbrev SpanKey := Bytes × Bytes      -- (trace id, span id)
 def AttrRow.span (a : AttrRow) : SpanKey := (a.traceId, a.spanId)
 
 /-! ### the time window -/
-def dateFrom (c : Ctx) : Bytes := Time.formatDate (Int.fdiv c.fromNs 1000000000 + c.zoneOff)
-def dateTo (c : Ctx) : Bytes := Time.formatDate (Int.fdiv c.toNs 1000000000 + c.zoneOff)
+/-- the UTC days of start and end -/
+def dateFrom (c : Ctx) : Bytes := Time.formatDate (Int.fdiv c.fromNs 1000000000)
+def dateTo (c : Ctx) : Bytes := Time.formatDate (Int.fdiv c.toNs 1000000000)
 
 /-- index rows that count: of a span that started inside [start, end), stored under a day of the window -/
 def admissible (c : Ctx) (a : AttrRow) : Bool :=
